@@ -74,11 +74,11 @@ pub struct Case {
     pub seed: u64,
 }
 
-pub const LENS: &[usize] = &[0, 1, 2, 3, 4, 5, 6, 7, 8, 9, 10, 11, 12, 13, 14, 15, 16, 17, 18, 19, 20, 21, 22, 23, 24, 25, 26, 27, 28, 29, 30, 31, 32, 33, 34, 35, 36, 37, 38, 39, 40, 41, 42, 43, 44, 45, 46, 47, 48, 49, 50, 51, 52, 53, 54, 55, 56, 57, 58, 59, 60, 61, 62, 63, 64, 100, 127, 128, 255, 256, 1000, 1023, 1024];
+pub const LENS: &[usize] = &[0, 1, 2, 3, 4, 5, 6, 7, 8, 9, 10, 11, 12, 13, 14, 15, 16, 17, 18, 19, 20, 21, 22, 23, 24, 25, 26, 27, 28, 29, 30, 31, 32, 33, 34, 35, 36, 37, 38, 39, 40, 41, 42, 43, 44, 45, 46, 47, 48, 49, 50, 51, 52, 53, 54, 55, 56, 57, 58, 59, 60, 61, 62, 63, 64, 100, 127, 128, 255, 256, 1000, 1023, 1024, 2047, 2048, 3000, 3500, 4095, 4096, 4097, 5000, 6000, 8192, 10000, 12000];
 
 macro_rules! lens {
     ($n:expr, $N:ident, $body:expr) => {
-        len_match!($n, $N, $body, [0: U0, 1: U1, 2: U2, 3: U3, 4: U4, 5: U5, 6: U6, 7: U7, 8: U8, 9: U9, 10: U10, 11: U11, 12: U12, 13: U13, 14: U14, 15: U15, 16: U16, 17: U17, 18: U18, 19: U19, 20: U20, 21: U21, 22: U22, 23: U23, 24: U24, 25: U25, 26: U26, 27: U27, 28: U28, 29: U29, 30: U30, 31: U31, 32: U32, 33: U33, 34: U34, 35: U35, 36: U36, 37: U37, 38: U38, 39: U39, 40: U40, 41: U41, 42: U42, 43: U43, 44: U44, 45: U45, 46: U46, 47: U47, 48: U48, 49: U49, 50: U50, 51: U51, 52: U52, 53: U53, 54: U54, 55: U55, 56: U56, 57: U57, 58: U58, 59: U59, 60: U60, 61: U61, 62: U62, 63: U63, 64: U64, 100: U100, 127: U127, 128: U128, 255: U255, 256: U256, 1000: U1000, 1023: U1023, 1024: U1024])
+        len_match!($n, $N, $body, [0: U0, 1: U1, 2: U2, 3: U3, 4: U4, 5: U5, 6: U6, 7: U7, 8: U8, 9: U9, 10: U10, 11: U11, 12: U12, 13: U13, 14: U14, 15: U15, 16: U16, 17: U17, 18: U18, 19: U19, 20: U20, 21: U21, 22: U22, 23: U23, 24: U24, 25: U25, 26: U26, 27: U27, 28: U28, 29: U29, 30: U30, 31: U31, 32: U32, 33: U33, 34: U34, 35: U35, 36: U36, 37: U37, 38: U38, 39: U39, 40: U40, 41: U41, 42: U42, 43: U43, 44: U44, 45: U45, 46: U46, 47: U47, 48: U48, 49: U49, 50: U50, 51: U51, 52: U52, 53: U53, 54: U54, 55: U55, 56: U56, 57: U57, 58: U58, 59: U59, 60: U60, 61: U61, 62: U62, 63: U63, 64: U64, 100: U100, 127: U127, 128: U128, 255: U255, 256: U256, 1000: U1000, 1023: U1023, 1024: U1024, 2047: U2047, 2048: U2048, 3000: U3000x, 3500: U3500x, 4095: U4095, 4096: U4096, 4097: U4097x, 5000: U5000x, 6000: U6000x, 8192: U8192, 10000: U10000, 12000: U12000x])
     };
 }
 
@@ -193,7 +193,7 @@ pub fn main() {
     let mut x = args.seed.wrapping_mul(0x9E37_79B9_7F4A_7C15) | 1;
     for &n in LENS {
         for kind in [Kind::U8, Kind::U64, Kind::Arr3, Kind::Nested, Kind::P, Kind::Sentinel, Kind::NonZero] {
-            for _ in 0..draws {
+            for _ in 0..(if n > 1024 { 2 } else { draws }) {
                 x ^= x << 13;
                 x ^= x >> 7;
                 x ^= x << 17;
@@ -218,7 +218,7 @@ pub fn main() {
         Report {
             prop: PROP,
             level: "exploration",
-            rule: "run-time half: case = (every N in 0..=64 and 100,127,128,255,256,1000,1023,1024 - each a distinct storage shape -, element kind u8 / u64 / [u8;3] / nested GenericArray<u8,U3> / P{a:u8,b:u16} with DEFAULT {0xAB,0xCDEF} / a type whose zeroized value is a non-zero sentinel / NonZeroU32 (zeroizes to 1), operation, seeded non-zero prior contents). \
+            rule: "run-time half: case = (every N in 0..=64 and 100,127,128,255,256,1000,1023,1024,2047,2048,3000,3500,4095,4096,4097,5000,6000,8192,10000,12000 - each a distinct storage shape -, element kind u8 / u64 / [u8;3] / nested GenericArray<u8,U3> / P{a:u8,b:u16} with DEFAULT {0xAB,0xCDEF} / a type whose zeroized value is a non-zero sentinel / NonZeroU32 (zeroizes to 1), operation, seeded non-zero prior contents). \
                    Oracle: after zeroize() every one of the N elements equals the element type's zeroized value, read through iteration, indexing and by-value iteration; const_default() and DEFAULT have length N, every element equals T::DEFAULT, and equal Default::default() where both exist. \
                    non-trivial = N >= 2 and an element kind other than u8; distinct = distinct case tuples",
             exhaustive: false,
